@@ -238,7 +238,7 @@ func (m *Machine) fnName(fn *ssa.Function) string {
 	if o := fn.Origin(); o != nil {
 		f = o
 	}
-	n := f.String()
+	n := strings.ReplaceAll(f.String(), " ", "")
 	m.fnNames[fn] = n
 	return n
 }
